@@ -14,7 +14,7 @@ from os.path import abspath
 from os.path import join as pjoin
 
 from snakeoil import klass
-from snakeoil.bash import read_bash, read_bash_dict
+from snakeoil.bash import BashParseError, read_bash, read_bash_dict
 from snakeoil.data_source import local_source
 from snakeoil.fileutils import readlines_utf8
 from snakeoil.klass.memoize import WeaklyCached
@@ -162,7 +162,7 @@ def _load_and_invoke(
         else:
             data = fallback
         return func(self, data)
-    except (OSError, ValueError, IndexError) as e:
+    except (OSError, ValueError, IndexError, BashParseError) as e:
         raise ProfileError(profile_path, filename, e) from e
     except IsADirectoryError as e:
         raise ProfileError(
